@@ -257,6 +257,11 @@ def account(ck, job):
     return job["recs"]
 
 
+def caching_of(i):
+    """PDFDocument(caching=...) of case i: objects kept (the default) or parsed anew on every access"""
+    return i % 2 == 0
+
+
 def physical(kind, i):
     """the physical variant of case i: 0 direct, 1 indirect nodes / values, 2 a subset of the single entries (/S /P /St,
     keys, arrays, /Limits elements, /Title, /A ...) written as indirect references - the subset changes from case
@@ -273,8 +278,8 @@ def eval_numtree(rec, i):
     npages = 8
     variant, mask = physical("numtree", i)
     data, meta = ND.numtree_doc(tree, npages, variant, mask)
-    detail = "number tree %s (variant %d, indirect entries %s)" % (json.dumps(tree), variant, sorted(meta["deep"]))
-    ok, doc = guarded("PDFDocument", lambda: OB.open_doc(data), findings, detail)
+    detail = "number tree %s (variant %d, indirect entries %s, caching=%s)" % (json.dumps(tree), variant, sorted(meta["deep"]), caching_of(i))
+    ok, doc = guarded("PDFDocument", lambda: OB.open_doc(data, caching=caching_of(i)), findings, detail)
     if not ok:
         return findings, 0, 1, False, None
     ok, vals = guarded("NumberTree.values", lambda: OB.NumberTree(doc.catalog["PageLabels"]).values, findings, detail)
@@ -297,7 +302,7 @@ def eval_numtree(rec, i):
             findings.append(("indirect:label-style", "get_page_labels() gives %s, expected %s: %s" % (labels, want, detail)))
         else:
             findings.append(("numtree:labels", "get_page_labels() gives %s, expected %s: %s" % (labels, want, detail)))
-    ok, plabels = guarded("PDFPage.label", lambda: [p.label for p in OB.PDFPage.create_pages(OB.open_doc(data))], findings, detail)
+    ok, plabels = guarded("PDFPage.label", lambda: [p.label for p in OB.PDFPage.create_pages(OB.open_doc(data, caching=caching_of(i)))], findings, detail)
     if ok and plabels != want and not ("S" in meta["deep"] and plabels == prefix_only):
         findings.append(("numtree:page.label", "PDFPage.label gives %s, expected %s: %s" % (plabels, want, detail)))
     sample = {"number_tree": tree, "variant": variant, "expected_keys": rec["ref"], "observed_keys": keys, "labels": labels} if i % 97 == 0 else None
@@ -312,8 +317,8 @@ def eval_labels(rec, i):
     P = len(ref)
     variant, mask = physical("labels", i)
     data, meta = ND.labels_doc(vals, P, variant, mask)
-    detail = "label ranges %s (variant %d, indirect entries %s)" % (json.dumps(vals), variant, sorted(meta["deep"]))
-    ok, doc = guarded("PDFDocument", lambda: OB.open_doc(data), findings, detail)
+    detail = "label ranges %s (variant %d, indirect entries %s, caching=%s)" % (json.dumps(vals), variant, sorted(meta["deep"]), caching_of(i))
+    ok, doc = guarded("PDFDocument", lambda: OB.open_doc(data, caching=caching_of(i)), findings, detail)
     if not ok:
         return findings, 0, 1, False, None
     ok, labels = guarded("get_page_labels", lambda: OB.page_labels(doc, P), findings, detail)
@@ -333,7 +338,7 @@ def eval_labels(rec, i):
                 else:
                     findings.append(("label:style=%s" % style, "page %d is labelled %r, expected %r (%s)" % (j, labels[j], ref[j], detail)))
                     break
-        ok, plabels = guarded("PDFPage.label", lambda: [p.label for p in OB.PDFPage.create_pages(OB.open_doc(data))], findings, detail)
+        ok, plabels = guarded("PDFPage.label", lambda: [p.label for p in OB.PDFPage.create_pages(OB.open_doc(data, caching=caching_of(i)))], findings, detail)
         if ok and plabels != labels:
             findings.append(("label:page.label", "PDFPage.label gives %s, get_page_labels() %s: %s" % (plabels, labels, detail)))
     nontrivial = any(r["style"] != "none" or r["prefix"] for r in vals)
@@ -351,16 +356,40 @@ def eval_dests(group, i):
     nkeys = meta["nkeys"]
     deep = meta["deep"]
     detail = "name tree %s dict %s (variant %d, indirect entries %s)" % (json.dumps(r0["tree"]) if r0["hastree"] else None,
-                                                                        sorted(r0["dict"]) if r0["hasdict"] else None, variant, sorted(deep))
-    ok, doc = guarded("PDFDocument", lambda: OB.open_doc(data), findings, detail)
+                                                                        sorted(r0["dict"]) if r0["hasdict"] else None, variant, sorted(deep)) \
+        + " caching=%s" % caching_of(i)
+    ok, doc = guarded("PDFDocument", lambda: OB.open_doc(data, caching=caching_of(i)), findings, detail)
     if not ok:
         return findings, 0, len(group), False, None
     page_index = {objid: n for n, objid in enumerate(meta["pages"])}
     seen = []
+    from pdfminer import settings
+    passes = [(False, doc)]
+    if i % 2 == 1 or len(group) <= 12:
+        passes.append((True, None))         # the same lookups with settings.STRICT = True: same values, absent -> not found
+    for strict, sdoc in passes:
+      was = settings.STRICT
+      settings.STRICT = strict
+      try:
+        if sdoc is None:
+            ok, sdoc = guarded("PDFDocument", lambda: OB.open_doc(data, caching=caching_of(i)), findings, detail + " STRICT")
+            if not ok:
+                continue
+        findings += _dest_queries(sdoc, group, meta, page_index, nkeys, deep, detail + (" settings.STRICT=True" if strict else ""), seen if not strict else [],
+                                  "@STRICT" if strict else "")
+      finally:
+        settings.STRICT = was
+    sample = {"name_tree": r0["tree"] if r0["hastree"] else None, "dests_dict_keys": sorted(r0["dict"]) if r0["hasdict"] else None,
+              "variant": variant, "queries": [[q, rec["ref"], real] for (q, real), rec in list(zip(seen, group))[:6]]} if i % 97 == 0 else None
+    return findings, drift, len(group) * len(passes), bool(r0["hastree"] and not r0["tree"]["leaf"]), sample
+
+
+def _dest_queries(doc, group, meta, page_index, nkeys, deep, detail, seen, suffix):
+    findings = []
     for rec in group:
         q = rec["q"]
         key = meta["keys"][q["id"]] if q["kind"] == "string" else meta["keys"][q["id"]].decode()
-        ok, r = guarded("get_dest", lambda: OB.ask_dest(doc, key), findings, "%s key %r" % (detail, key))
+        ok, r = guarded("get_dest" + suffix, lambda: OB.ask_dest(doc, key), findings, "%s key %r" % (detail, key))
         if not ok:
             continue
         if r[0] == "value":
@@ -379,11 +408,9 @@ def eval_dests(group, i):
         elif q["kind"] == "string" and "key" in deep and real == "NotFound" and isinstance(rec["ref"], list) and rec["ref"][0] == "tree":
             findings.append(("indirect:name-tree-keys", "get_dest(%r) gives %s, expected %s (%s)" % (key, real, rec["ref"], detail)))
         else:
-            findings.append(("dest:%s:%s" % (q["kind"], real if isinstance(real, str) else real[0]),
+            findings.append(("dest:%s:%s%s" % (q["kind"], real if isinstance(real, str) else real[0], suffix),
                              "get_dest(%r) gives %s, expected %s (%s)" % (key, real, rec["ref"], detail)))
-    sample = {"name_tree": r0["tree"] if r0["hastree"] else None, "dests_dict_keys": sorted(r0["dict"]) if r0["hasdict"] else None,
-              "variant": variant, "queries": [[q, rec["ref"], real] for (q, real), rec in list(zip(seen, group))[:6]]} if i % 97 == 0 else None
-    return findings, drift, len(group), bool(r0["hastree"] and not r0["tree"]["leaf"]), sample
+    return findings
 
 
 # ================================================================================================ outlines
@@ -395,8 +422,8 @@ def eval_outline(rec, i):
     fired = set(rec["fired"])
     variant, mask = physical("outline", i)
     data, meta = ND.outline_doc(n, lev, tgt, variant, mask)
-    detail = "outline levels %s targets %s (variant %d, indirect entries %s)" % (lev, tgt, variant, sorted(meta["deep"]))
-    ok, doc = guarded("PDFDocument", lambda: OB.open_doc(data), findings, detail)
+    detail = "outline levels %s targets %s (variant %d, indirect entries %s, caching=%s)" % (lev, tgt, variant, sorted(meta["deep"]), caching_of(i))
+    ok, doc = guarded("PDFDocument", lambda: OB.open_doc(data, caching=caching_of(i)), findings, detail)
     if not ok:
         return findings, 0, 1, False, None
     ok, got = guarded("get_outlines", lambda: OB.outlines_with_frames(doc), findings, detail)
@@ -476,7 +503,7 @@ def eval_pagelabels(rec, i):
     data, meta = RT.realise(rec["g"], rec["cat"], (), variant, i % 7, labels=True)
     pagenos, maxpages = sorted(rec["pagenos"]), rec["maxpages"]
     detail = "graph %s page_numbers=%s maxpages=%d (variant %d)" % (json.dumps([[n["kind"], n["kids"]] for n in rec["g"]]), pagenos, maxpages, variant)
-    ok, pages = guarded("PDFPage.create_pages", lambda: list(OB.PDFPage.create_pages(OB.open_doc(data))), findings, detail)
+    ok, pages = guarded("PDFPage.create_pages", lambda: list(OB.PDFPage.create_pages(OB.open_doc(data, caching=caching_of(i)))), findings, detail)
     if not ok:
         return findings, 0, 1, False, None
     want_all = [RT.label_of_index(p["lab"]) for p in rec["ref"]]
